@@ -717,9 +717,23 @@ impl<'a> Runner<'a> {
             0 => ("add-version with empty body from a never-seen client", HttpReq::new("POST", &format!("/v1/client/add-version/{}", Uuid::nil())).header("X-Client-Id", &stranger).header("Content-Type", CT_HISTORY)),
             1 => ("add-version with empty body", HttpReq::new("POST", &format!("/v1/client/add-version/{latest}")).header("X-Client-Id", &known).header("Content-Type", CT_HISTORY)),
             2 => ("add-version with a wrong content type from a never-seen client", HttpReq::new("POST", &format!("/v1/client/add-version/{}", Uuid::nil())).header("X-Client-Id", &stranger).header("Content-Type", "text/plain").body(vec![1, 2, 3])),
-            3 => ("add-version with a wrong content type", HttpReq::new("POST", &format!("/v1/client/add-version/{latest}")).header("X-Client-Id", &known).header("Content-Type", CT_SNAPSHOT).body(vec![1, 2, 3])),
+            3 => {
+                let ct = match self.rng.below(3) {
+                    0 => CT_SNAPSHOT.to_string(),
+                    1 => format!("{CT_HISTORY}+json"),
+                    _ => format!("{CT_HISTORY}s"),
+                };
+                ("add-version with a wrong content type", HttpReq::new("POST", &format!("/v1/client/add-version/{latest}")).header("X-Client-Id", &known).header("Content-Type", &ct).body(vec![1, 2, 3]))
+            }
             4 => ("add-snapshot with empty body", HttpReq::new("POST", &format!("/v1/client/add-snapshot/{latest}")).header("X-Client-Id", &known).header("Content-Type", CT_SNAPSHOT)),
-            5 => ("add-snapshot with a wrong content type", HttpReq::new("POST", &format!("/v1/client/add-snapshot/{latest}")).header("X-Client-Id", &known).header("Content-Type", CT_HISTORY).body(vec![9; 20])),
+            5 => {
+                let ct = match self.rng.below(3) {
+                    0 => CT_HISTORY.to_string(),
+                    1 => format!("{CT_SNAPSHOT}+zstd"),
+                    _ => CT_SNAPSHOT[..CT_SNAPSHOT.len() - 1].to_string(),
+                };
+                ("add-snapshot with a wrong content type", HttpReq::new("POST", &format!("/v1/client/add-snapshot/{latest}")).header("X-Client-Id", &known).header("Content-Type", &ct).body(vec![9; 20]))
+            }
             6 => ("add-version without a client id", HttpReq::new("POST", &format!("/v1/client/add-version/{latest}")).header("Content-Type", CT_HISTORY).body(vec![1])),
             7 => ("add-version with a malformed parent id", HttpReq::new("POST", "/v1/client/add-version/not-a-uuid").header("X-Client-Id", &known).header("Content-Type", CT_HISTORY).body(vec![1])),
             8 => ("add-snapshot from a never-seen client", HttpReq::new("POST", &format!("/v1/client/add-snapshot/{latest}")).header("X-Client-Id", &stranger).header("Content-Type", CT_SNAPSHOT).body(vec![7; 30])),
